@@ -217,17 +217,13 @@ func auxTargets() []target {
 		{name: "cmpp.MsgIDString2Uint64", call: func(b []byte) error { cmpp.MsgIDString2Uint64(string(b)); return nil }},
 		{name: "codec.CMPPCodec.Decode", call: func(b []byte) error { _, err := codec.NewCMPPCodec().Decode(&sliceConn{b}); return err }},
 		{name: "codec.SMPPCodec.Decode", call: func(b []byte) error { _, err := codec.NewSMPPCodec().Decode(&sliceConn{b}); return err }},
-		{name: "codec.CMPPCodec.DecodeBlocked", allocExempt: true, call: func(b []byte) error {
-			if len(b) >= 4 && binary.BigEndian.Uint32(b) > 1<<20 {
-				return nil // clamped: a blocking reader has to allocate what the prefix announces
-			}
+		// the blocking frame readers (codec/*.go are among C03's anchors): a frame is returned as a copy, so 1x the input
+		// is legitimate; the announced length itself must cost nothing
+		{name: "codec.CMPPCodec.DecodeBlocked", call: func(b []byte) error {
 			_, err := codec.NewCMPPCodec().DecodeBlocked(&sliceConn{b})
 			return err
 		}},
-		{name: "codec.SMPPCodec.DecodeBlocked", allocExempt: true, call: func(b []byte) error {
-			if len(b) >= 4 && binary.BigEndian.Uint32(b) > 1<<20 {
-				return nil
-			}
+		{name: "codec.SMPPCodec.DecodeBlocked", call: func(b []byte) error {
 			_, err := codec.NewSMPPCodec().DecodeBlocked(&sliceConn{b})
 			return err
 		}},
@@ -445,7 +441,7 @@ func init() {
 		Rule: "inputs = reference images of generated PDUs mutated structurally (every truncation point, every length/count field x boundary values, every offset x 5 octet values, trailing garbage 1..16, TLV-tail surgery) plus unstructured strings 0..64 KiB, fed to 57 IDecodes, 5 dispatchers and 45 auxiliary parsers; " +
 			"distinct_nontrivial = distinct (stage, target, outcome class[, PDU type, mutation class]) combinations observed, outcome class in {accepted, error}",
 		Assumptions: []string{
-			"allocation bound 2 MiB + 64*len(input) per call (512*len for the four String() entry points, whose x/text driver retries ~log2(n) times), minimum of three measurements (DESIGN 3.3); not applied to DecodeBlocked, whose announced frame sizes are clamped to 1 MiB",
+			"allocation bound 2 MiB + 64*len(input) per call (512*len for the four String() entry points, whose x/text driver retries ~log2(n) times), minimum of three measurements, then an exact second level at 24 KiB + 64*len (DESIGN 3.3); the blocking frame readers are judged like every other target",
 			"a hang is a logical-step overrun: 64*(len+1024) Tick events per call; loops without a Tick site are covered only by the wall-clock watchdog (inconclusive)",
 		},
 		Conclude: func(total *fw.Result) []string {
